@@ -185,7 +185,7 @@ type c08Client struct {
 	closed     map[string]string // connID -> how it ended (one map shared by all clients of a history)
 	active     bool              // took part in this history (a provisioned but idle identity is not looked up)
 	lost       []*c08Conn        // connections this identity lost to another client's handshake on them (still open)
-	cloudDirty string            // cloud-control view not judged (see tunnelConn / takeover) until this client's next control handshake
+	cloudDirty string            // "tunnel_conn": a tunnel-type handshake happened since this client's last control handshake (classifies cloud-state violations)
 	unsure     string            // the node dropped cur on its own and the harness has not yet played the adapter cleanup: no verdicts
 	lastNode   int               // node of the most recent connect
 	broken     string            // signature of the running failure episode ("" = last lookup fine)
@@ -434,10 +434,7 @@ func (w *c08World) takeover(cl, by *c08Client) bool {
 	by.cur, by.cleaned, by.lastNode, by.cloudDirty, by.active = c, 0, c.node, "", true
 	cl.cur = nil
 	cl.lost = append(cl.lost, c)
-	// clean tree: the replaced identity's runtime state is neither rewritten nor removed
-	// (it lingers until its 90 s lifetime ends, also after the connection closes); the
-	// cloud view of cl is not judged until cl's next own handshake
-	cl.cloudDirty = "identity_replaced"
+	cl.cloudDirty = ""
 	w.ev(by, "ri", fmt.Sprintf("relogin-as-c%d on c%d's connection %s@%s", by.idx, cl.idx, c.id, w.nodes[c.node].NodeID))
 	w.run.Count("identity_changes|"+w.be.name, 1)
 	return true
@@ -663,8 +660,8 @@ func (w *c08World) tunnelConn(cl *c08Client, node int) bool {
 		// tunnel connection and closing that connection removes the state. A heartbeat
 		// rebuilds a missing state for whichever connection it arrives on (possibly an
 		// abandoned one) and afterwards only touches it, so only the next control
-		// handshake (ConnectClient) is certain to restore it. The cloud view is not
-		// judged in between.
+		// handshake (ConnectClient) is certain to restore it. Wrong cloud-control answers
+		// in between are reported under their own signature (see judgeCloud).
 		cl.cloudDirty = "tunnel_conn"
 	}
 	w.ev(cl, "t"+strings.ToUpper(string(rune('a'+node))), fmt.Sprintf("tunnel-conn@%s=%s", n.NodeID, mc.ConnID))
@@ -839,9 +836,15 @@ func (w *c08World) judgeCloud(cl *c08Client, asker int, got string, err error) *
 		w.run.Count("cloud_unjudged_current_dropped", 1)
 		return nil
 	}
-	if cl.cloudDirty != "" {
-		w.run.Count("cloud_unjudged_"+cl.cloudDirty, 1)
-		return nil
+	// a wrong answer while a tunnel-type handshake of this client happened since its last
+	// control handshake gets its own signature: that handshake rewrites the client's
+	// runtime state to the tunnel connection and closing the tunnel connection deletes it
+	tunnel := func(p *c08Pending) *c08Pending {
+		if cl.cloudDirty == "tunnel_conn" {
+			p.sig = "C08:cloud-state|tunnel-handshake-erased-control-state|backend=" + be
+			p.detail["minimal_witness"] = "control handshake on node X; tunnel-type handshake (ConnectionType=tunnel) of the same client on any node: GetClientNodeID now names the tunnel connection's node; close the tunnel-type connection: GetClientNodeID reports offline although the control connection is alive (a later heartbeat on an abandoned connection can rebuild the state on the wrong node)"
+		}
+		return p
 	}
 	c := cl.cur
 	if c == nil {
@@ -856,12 +859,16 @@ func (w *c08World) judgeCloud(cl *c08Client, asker int, got string, err error) *
 			}
 		}
 		for _, z := range cl.lost {
-			if w.nodes[z.node].NodeID == got && cl.closed[z.id] == "" {
-				w.run.Count("cloud_tolerated_abandoned_conn", 1)
-				return nil
+			if w.nodes[z.node].NodeID == got {
+				// another identity authenticated on this client's connection: this
+				// client no longer has a connection, yet its runtime state survives
+				p := mk("C08:cloud-state|replaced-identity-lingers|backend="+be, "offline")
+				p.detail["minimal_witness"] = "client X: control handshake on connection c; client Y: successful challenge-response on the same connection c; GetClientNodeID(X) still names c's node, also after c is closed (until the 90 s state lifetime ends)"
+				p.detail["connection_now_closed"] = cl.closed[z.id] != ""
+				return tunnel(p) // a tunnel-type handshake since then explains it differently
 			}
 		}
-		return mk("C08:cloud-state|online-after-close|backend="+be, "offline")
+		return tunnel(mk("C08:cloud-state|online-after-close|backend="+be, "offline"))
 	}
 	want := w.nodes[c.node].NodeID
 	switch {
@@ -871,9 +878,9 @@ func (w *c08World) judgeCloud(cl *c08Client, asker int, got string, err error) *
 		w.run.Count("cloud_found_ok", 1)
 		return nil
 	case got == "":
-		return mk("C08:cloud-state|got=offline|backend="+be, want)
+		return tunnel(mk("C08:cloud-state|got=offline|backend="+be, want))
 	}
-	return mk("C08:cloud-state|got=wrong-node|backend="+be, want)
+	return tunnel(mk("C08:cloud-state|got=wrong-node|backend="+be, want))
 }
 
 func (w *c08World) judge(cl *c08Client, asker int, a c08Answer) *c08Pending {
@@ -903,6 +910,14 @@ func (w *c08World) judge(cl *c08Client, asker int, a c08Answer) *c08Pending {
 		case err != nil:
 			w.run.Count("lookups_notconnected_other_error", 1)
 		default:
+			for _, z := range cl.lost {
+				if z.id == gotConn {
+					// the connection now carries another identity (its most recent
+					// successful handshake): this client is no longer connected there
+					return mk("C08:replaced-identity-lingers|backend="+be, map[string]any{"expected": "not connected",
+						"minimal_witness": "client X: control handshake on connection c; client Y: successful challenge-response on the same connection c; FindClientNode(X) still answers (node, c)"})
+				}
+			}
 			if how, was := cl.closed[gotConn]; was {
 				sig := "C08:reported-connected-after-close|backend=" + be
 				if how == "swept" {
@@ -914,13 +929,6 @@ func (w *c08World) judge(cl *c08Client, asker int, a c08Answer) *c08Pending {
 				if z.id == gotConn {
 					// the client is gone but that node has not noticed yet: either answer is defensible
 					w.run.Count("lookups_tolerated_abandoned_conn", 1)
-					return nil
-				}
-			}
-			for _, z := range cl.lost {
-				if z.id == gotConn {
-					// the connection now belongs to another identity but is still open
-					w.run.Count("lookups_tolerated_lost_conn", 1)
 					return nil
 				}
 			}
